@@ -452,7 +452,10 @@ def run_shard(cfg):
                             exp = (name, caps)
                             break
                     try:
-                        got = mpm.match(node, order)
+                        # the rule order is an Iterable[str]: handed over as a list, a tuple, an iterator or a generator in turn
+                        how = ni % 4
+                        arg = order if order is None or how == 0 else (tuple(order) if how == 1 else (iter(order) if how == 2 else (x for x in order)))
+                        got = mpm.match(node, arg)
                     except Exception as e:  # noqa: BLE001
                         rec.violation(f"C08|multi|raises|{type(e).__name__}", {"rules": defs, "order": order, "node": ni}, str(e)[:200])
                         continue
